@@ -170,6 +170,14 @@ pub fn configs(tier: Tier) -> Vec<Config> {
         out.push(Config { charw: big, charn: 1, typew: big, typen: 1, dict: vec![], bucket: 1, solver: 5 });
         out.push(Config { charw: big, charn: 3, typew: big, typen: 3, dict: vec![], bucket: 1, solver: 1 });
     }
+    // degenerate dictionary entries: the empty word (alone, first, last), a word repeated, a word that is
+    // a single non-BMP character, white space only
+    for d in [vec![""], vec!["", "ab"], vec!["ab", ""], vec!["ab", "ab"], vec!["𠀋"], vec![" "], vec!["a", "", "a"]] {
+        for bucket in [1u8, 2] {
+            out.push(Config { charw: 2, charn: 2, typew: 2, typen: 2, dict: d.iter().map(|x| x.to_string()).collect(), bucket, solver: 1 });
+            out.push(Config { charw: 0, charn: 0, typew: 1, typen: 1, dict: d.iter().map(|x| x.to_string()).collect(), bucket, solver: 5 });
+        }
+    }
     out
 }
 
